@@ -586,7 +586,7 @@ impl Check for C14 {
         "fault_enumeration"
     }
     fn rule(&self) -> String {
-        "for each base configuration (n in {2,3}, every leader, with / without constants) the undisturbed run is recorded; then one stray command per simulated run is injected after event k, for every k at which the command is invalid for the state reached: duplicate schedule (leader and follower, every later point), run / consts before the machine is validated (every earlier point, incl. before its own schedule, where the router answers 'unknown computation'), validate after the run request (every later point), MPC message from sender index n, n+1, usize::MAX or the own index at every point incl. before scheduling; the base run's decisions are replayed around the injection. Oracle: the stray call returns an error (own-index messages after scheduling are only required not to disturb), no task panics, and the computation under way still satisfies the C13 oracle (schedules Ok, exactly one correct result per destination, machines stop, permits back). distinct = (configuration, command, injection point)".into()
+        "for each base configuration (n in {2,3}, every leader, with / without constants) the undisturbed run is recorded; then one stray command per simulated run is injected after event k, for every k at which the command is invalid for the state reached: duplicate schedule (leader and follower, every later point), run / consts before the machine is validated (every earlier point, incl. before its own schedule, where the router answers 'unknown computation'), validate after the run request (every later point), MPC message from sender index n, n+1, usize::MAX or the own index at every point incl. before scheduling; and every validate / run / consts RPC of the run delivered twice (retry after a lost response); the base run's decisions are replayed around the injection. Oracle: the stray call returns an error (own-index messages after scheduling are only required not to disturb), no task panics, and the computation under way still satisfies the C13 oracle (schedules Ok, exactly one correct result per destination, machines stop, permits back). distinct = (configuration, command, injection point)".into()
     }
     fn assumptions(&self) -> Vec<String> {
         vec!["commands that are valid in the state reached (e.g. an early copy of the leader's own validate) are not 'stray' in the property's sense and are not injected".into()]
@@ -763,7 +763,7 @@ impl Check for C15 {
         "fault_enumeration"
     }
     fn rule(&self) -> String {
-        "for each base configuration (n in {2,3}, every leader, with / without constants and destinations) the undisturbed run is recorded; then cancel() is invoked on party p after the k-th event, for every k of the run (all states Init .. Executing, including 'cancel queued behind the internal run command' reached by cancelling while the compile job is parked, and, with individually explored MPC messages, every point of the MPC phase) and every p, replaying the base decisions around it. Oracle at the cancel-return event and at final quiescence: if cancel returned Ok the party's machine has stopped, a party with a destination was sent exactly one notification (Cancelled, or the real result if already sent) and none after the cancel returned, and its permits are all available; no task panics; a cancel call that never returns is a violation. distinct = (configuration, party, k)".into()
+        "for each base configuration (n in {2,3}, every leader, with / without constants and destinations) the undisturbed run is recorded; then cancel() is invoked on party p after the k-th event, for every k of the run (all states Init .. Executing, including 'cancel queued behind the internal run command' reached by cancelling while the compile job is parked, and, with individually explored MPC messages, every point of the MPC phase) and every p, replaying the base decisions around it; every point once after the system quiesced and once in the same step as the preceding event (burst: both commands queued back to back, which is the only way to meet state Running); a third of the runs additionally fail one run / consts RPC so that cancel has to stay synchronised with tasks that can still notify the destination. Oracle at the cancel-return event and at final quiescence: if cancel returned Ok the party's machine has stopped, a party with a destination was sent exactly one notification (Cancelled, or the real result if already sent) and none after the cancel returned, and its permits are all available; no task panics; a cancel call that never returns is a violation. distinct = (configuration, party, k)".into()
     }
     fn assumptions(&self) -> Vec<String> {
         vec!["single-threaded runtime only (DESIGN.md section 3); output deliveries are atomic".into(), "what the other parties do after a peer cancelled is not judged".into()]
@@ -1008,7 +1008,7 @@ impl Check for C17 {
         "exploration"
     }
     fn rule(&self) -> String {
-        "each evaluation is one simulated execution of a batch of 1..8 policies (n in {2,3}, mixed leaders, concurrency 1..3 per party, destinations present or absent, programs with and without constants) over one shared semaphore per party; a third of the runs inject one failing RPC (FailBefore = request lost, FailAfter = response lost) into a validate / run / consts call, a third inject a cancel at a random point. Monitor at every quiescence: permits held per party never exceed its concurrency; at the end every party has all permits back; for a failed RPC the affected policy ends at the caller (its machine stops; run / consts: an error notification if it has a destination); fault-free batches must satisfy the C13 oracle for every policy. distinct = (batch, fault, coordination order) hash".into()
+        "each evaluation is one simulated execution of a batch of 1..8 policies (n in {2,3}, mixed leaders, concurrency 1..3 per party, destinations present or absent, programs with and without constants) over one shared semaphore per party; a third of the runs inject one failing RPC (FailBefore = request lost, FailAfter = response lost) into a validate / run / consts call, a third inject a cancel at a random point. Monitor at every quiescence: permits held per party, and led computations between 'first run request sent' and 'state machine stopped', never exceed its concurrency; at the end every party has all permits back; for a failed RPC the affected policy ends at the caller (its machine stops; run / consts: an error notification if it has a destination); fault-free batches must satisfy the C13 oracle for every policy. distinct = (batch, fault, coordination order) hash".into()
     }
     fn assumptions(&self) -> Vec<String> {
         vec!["followers of a policy whose leader failed may keep waiting (no RPC timeouts in the core); only the caller side is judged".into()]
